@@ -36,12 +36,16 @@ class alarm:
         raise Timeout()
 
     def __enter__(self):
-        self.old = signal.signal(signal.SIGALRM, self._h)
-        signal.setitimer(signal.ITIMER_REAL, self.seconds)
+        import threading
+        self.active = threading.current_thread() is threading.main_thread()   # signals only work there
+        if self.active:
+            self.old = signal.signal(signal.SIGALRM, self._h)
+            signal.setitimer(signal.ITIMER_REAL, self.seconds)
 
     def __exit__(self, *a):
-        signal.setitimer(signal.ITIMER_REAL, 0)
-        signal.signal(signal.SIGALRM, self.old)
+        if self.active:
+            signal.setitimer(signal.ITIMER_REAL, 0)
+            signal.signal(signal.SIGALRM, self.old)
         return False
 
 
